@@ -1,4 +1,3 @@
 SPECIFICATION Spec
-INVARIANT InvGen
 POSTCONDITION Consumed
 CHECK_DEADLOCK FALSE
